@@ -108,7 +108,8 @@ func classify(c *Case) (bool, []string) {
 	add(c.InStream && o.n > maxFan*maxFan, "written-inside-open-stream>4096")
 	for _, k := range []string{"empty-name-key", "non-ascii-key", "nul-in-key", "prefix-neighbours", "adjacent-keys",
 		"last-byte-differs", "min-int64-key", "max-int64-key", "negative-key", "zero-key", "consecutive-ints",
-		"value-null", "value-ref", "value-null-inside", "value-ref-inside"} {
+		"value-null", "value-ref", "value-null-inside", "value-ref-inside",
+		"all-repeated-with-kids", "all-stopped-in-second-leaf"} {
 		add(o.flags[k], k)
 	}
 	// the rule of DESIGN.md: two levels and an absent-key probe which falls
